@@ -9,10 +9,14 @@ Every binary and prefix operator of Gleam is an expression rule at its result ty
 GEN: programs from
   * Typing_b  - exhaustive, "every rule once": one function per result type x every typing rule once (budget 1), every
     pattern rule, every operator as a pin on either side, every rule once inside a generic function;
-  * Typing_bs - exhaustive, "every signature once": every parameter list up to length 4 over a kind alphabet, every result that is a variable / a pair of variables / a list, with a caller that instantiates the
-    function at two different assignments; labelled parameter lists called with the labels in every order;
+  * Typing_bs - exhaustive, "every signature once": every parameter list up to length 4 over a kind alphabet, every
+    result that is a variable / a pair of variables / a list, with a caller that instantiates the function at two
+    different assignments; labelled parameter lists called with the labels in every order;
   * Typing_sim - simulation: modules of three functions, budget 6 each;
-  * Typing_un_<p> - the same with a production re-enabled that triggers a recorded finding (run: unmasked:<p>)
+  * Typing_un_<p> - a production (group) re-enabled that triggers a recorded finding (run: unmasked:<p>): lambda_annot,
+    call_gen_rec, bool_op (&& || !=), prefix_op (! -), late_use (access on the parameter of a lambda argument) by
+    simulation; call_rec_labels (recursive calls to functions with labelled parameters) exhaustively over the labelled
+    parameter lists
 are rendered with the functions in a seeded order and the prelude before or after them; hover on every binder, every
 generated function and every function of the prelude is compared with the specification's type (whitespace-normalised,
 type variables renamed by first occurrence, so fn(a, b) and fn(a, a) stay different)."""
@@ -22,7 +26,7 @@ import vlib
 # production group -> (cfg, exhaustive?)
 UNMASK = {"lambda_annot": ("Typing_un_lambda_annot.cfg", False), "call_gen_rec": ("Typing_un_call_gen_rec.cfg", False),
           "bool_op": ("Typing_un_bool_op.cfg", False), "prefix_op": ("Typing_un_prefix_op.cfg", False),
-          "call_rec_labels": ("Typing_un_call_rec_labels.cfg", True)}
+          "call_rec_labels": ("Typing_un_call_rec_labels.cfg", True), "late_use": ("Typing_un_late_use.cfg", False)}
 
 
 def write_cases(path, results):
@@ -71,7 +75,7 @@ def run_ty(out, cases, seed, name, label, prop="C09", prelude=None):
 
 def generate(tier, seed, prefix, unmasked=True):
     """all TLC runs of the tier, concurrently; returns (main results, {group: result})"""
-    nsim, per, per_un = (4, 100, 100) if tier == "quick" else (12, 2500, 1500)     # behaviours of Rounds = 6 programs each
+    nsim, per, per_un = (4, 60, 50) if tier == "quick" else (12, 2500, 1000)     # behaviours of Rounds = 6 programs each
     jobs = [dict(module="Typing", cfg="Typing_b.cfg", workers=6, timeout=3000, heap="8g", coverage=True, name=prefix + "-b"),
             dict(module="Typing", cfg="Typing_bs.cfg", workers=2, timeout=3000, heap="4g", name=prefix + "-bs")]
     jobs += [dict(module="Typing", cfg="Typing_sim.cfg", workers=1, simulate=per, depth=4000, seed=seed * 1000 + i, timeout=3000, name=f"{prefix}-sim-{i}")
